@@ -20,11 +20,13 @@ PY = sys.executable
 NPROC = int(os.environ.get('VF_JOBS', '16'))
 
 
-def worker(modname, tier, cname, mode, extra=None, wall=None):
+def worker(modname, tier, cname, mode, extra=None, wall=None, exclude=None):
     cmd = [PY, '-m', 'vf.engine', modname, tier, cname, mode]
     if extra is not None:
         cmd.append(json.dumps(extra))
     env = dict(os.environ)
+    if exclude:
+        env['VF_EXCLUDE_POINTS'] = json.dumps(exclude)
     env['PYTHONPATH'] = ROOT + os.pathsep + env.get('PYTHONPATH', '')
     env['PYTHONHASHSEED'] = '0'
     t0 = time.time()
@@ -140,15 +142,46 @@ def main(argv):
         if r['status'] == 'CONFIRMED':
             confirmed += 1
         elif r['status'] == 'REFUTED':
+            def _replay(a):
+                rp = worker(modname, tier, c.name, 'concrete', a, wall=900)
+                ok_ = bool(rp.get('pre')) and not rp.get('ok', True)
+                if ok_ and isinstance(rp.get('real'), dict):
+                    # None = no real-filesystem counterpart of this instance (stage 1 stands)
+                    ok_ = rp['real'].get('reproduced') is not False
+                return rp, ok_
             args = r.get('args')
-            rep = worker(modname, tier, c.name, 'concrete', args, wall=900)
+            rep, reproduced = _replay(args)
+            spurious = []
+            # A model value that does not violate anything when run on the real code is an
+            # imprecision of the engine's model of some builtin (seen with str.strip() vs
+            # re "\\s" on a free code point).  The point is decided concretely (it holds), is
+            # excluded, and the search repeated; never reported as a violation.
+            while (not reproduced and args is not None and rep.get('pre')
+                   and 'exception' not in rep and len(spurious) < 3
+                   and c.replay_real is None):
+                spurious.append(args)
+                r = worker(modname, tier, c.name, 'main', None, c.timeout * 2 + 120,
+                           exclude=spurious)
+                paths += r.get('paths', 0)
+                z3c += r.get('z3_calls', 0)
+                z3s += r.get('z3_s', 0.0)
+                entry['status'] = r['status']
+                if r['status'] != 'REFUTED':
+                    break
+                args = r.get('args')
+                rep, reproduced = _replay(args)
+            if spurious:
+                entry['engine_model_values_not_reproducing'] = spurious
             entry['counterexample'] = args
             entry['replay'] = rep
-            reproduced = bool(rep.get('pre')) and not rep.get('ok', True)
-            if reproduced and isinstance(rep.get('real'), dict):
-                # None = this instance has no real-filesystem counterpart (stage 1 stands)
-                reproduced = rep['real'].get('reproduced') is not False
-            if not reproduced:
+            if r['status'] == 'CONFIRMED':
+                confirmed += 1
+            elif r['status'] != 'REFUTED':
+                inconclusive.append(c.name)
+            elif not reproduced and spurious:
+                inconclusive.append(c.name)
+                entry['detail'] = 'engine model imprecision: counterexamples do not reproduce'
+            elif not reproduced:
                 harness_errors.append(
                     f'{c.name}: counterexample {json.dumps(args)} does not reproduce '
                     f'on the real code: {json.dumps(rep)[:600]}')
